@@ -116,6 +116,17 @@ pub fn plan<'a>(ctx: &'a Ctx, rng: &mut Rng, tier: Tier) -> Plan<'a> {
                     cases.push(Case { tcs: t, cfg: Cfg::new(cls | extra[k % 4]) });
                 }
             }
+            // unusual clusters and metacharacters under the class options: what is left literal must still be escaped and grouped
+            // as without them (a metacharacter that shares a cluster with a modifier, a Prepend letter in front of a digit, …)
+            for atoms in [gen::CLUSTERS, gen::META] {
+                for cls in [1u32, 2, 4, 8, 16, 32, 5, 42, 63] {
+                    for _ in 0..(if quick { 25 } else { 400 }) {
+                        let mut t = gen::random_list(rng, atoms);
+                        if rng.chance(1, 2) { t.push(format!("{}1 ", rng.pick(&atoms.iter().map(|a| a.to_string()).collect::<Vec<_>>()))); }
+                        cases.push(Case { tcs: t, cfg: Cfg::new(cls) });
+                    }
+                }
+            }
             // every boundary of the regex crate's own \s table (22 code points), and a seeded sample of the
             // boundaries of \d and \w (thorough: all of them), alone and next to a letter, under each single option
             // and under all six together
@@ -196,7 +207,7 @@ pub fn plan<'a>(ctx: &'a Ctx, rng: &mut Rng, tier: Tier) -> Plan<'a> {
                 judge: Box::new(move |c, b| {
                     let mut f = judge::judge_exact(classes, c, b);
                     if let Some(out) = b.ok() {
-                        if !out.starts_with("(?i") {
+                        if c.cfg.has(BIT_CI) && !out.starts_with("(?i") {
                             f.push(Fail::new(Kind::Syntax, format!("case-insensitive output {:?} lacks the (?i) flag", out), None));
                         }
                         // collapse: a test case is stored lower-cased when that keeps its number of code points and the regex crate
